@@ -6,7 +6,7 @@ from typing import Any, Dict
 
 from .. import gen, hta
 from ..core import Prop
-from .common import case_from_cfg, draw_prefix, frame_rows, write_and_load
+from .common import file_entries, case_from_cfg, draw_prefix, frame_rows, write_and_load
 
 
 def breakdown_cfg(rng: random.Random, tier: str) -> gen.GenCfg:
@@ -23,7 +23,7 @@ def breakdown_cfg(rng: random.Random, tier: str) -> gen.GenCfg:
         ops_per_step=(2, 5) if big else (1, 3),
         base=rng.choice([0, 1000, 10 ** 6, 1_700_000_000_000_000]),
         fmt=rng.choice(["json", "json.gz"]),
-        unlinked_head=rng.choice([0, 0, 1, 2]), p_nocorr_head=rng.choice([0.0, 0.5]),
+        unlinked_head=rng.choice([0, 0, 1, 2]), p_nocorr_head=rng.choice([0.0, 0.5]), big_vocab=rng.random() < 0.25,
         gpu_annotations=rng.random() < 0.5, p_nested_annotation=rng.choice([0.0, 0.2]), bwd_annotation=rng.random() < 0.3,
     )
 
@@ -62,12 +62,12 @@ class C04(Prop):
                 df = ta.get_temporal_breakdown(visualize=False)
             except Exception as ex:
                 obs["err"] = hta.exc_str(ex)
-                obs["ranks"] = [{"rank": r, "rows": rows[r]} for r in ranks]
+                obs["ranks"] = [{"rank": r, "file": file_entries(case, r), "rows": rows[r]} for r in ranks]
                 return obs
             for _, row in df.iterrows():
                 r = int(row["rank"])
                 obs["ranks"].append({
-                    "rank": r, "rows": rows[r],
+                    "rank": r, "file": file_entries(case, r), "rows": rows[r],
                     "idle": hta.ival(row["idle_time(us)"]), "comp": hta.ival(row["compute_time(us)"]),
                     "ncomp": hta.ival(row["non_compute_time(us)"]), "ktime": hta.ival(row["kernel_time(us)"]),
                     "idleP": hta.scaled(row["idle_time_pctg"], 100), "compP": hta.scaled(row["compute_time_pctg"], 100),
